@@ -381,13 +381,30 @@ func (c *Ctx) rulesC17() {
 	fClockF := c.field(pm, "Machine", "clock")
 	if imp := c.fn(pm + ":Machine.Import"); imp != nil && fSerNames != nil && fClockF != nil {
 		n := 0
-		for _, w := range writesOfFieldIn(imp, fClockF) {
+		var cws []fieldWrite
+		for _, hf := range c.hostedFns(imp) {
+			cws = append(cws, writesOfFieldIn(hf, fClockF)...)
+		}
+		var fromNames func(x ssa.Value) bool
+		fromNames = func(x ssa.Value) bool {
+			if loadOfField(x) == fSerNames || fieldOf(x) == fSerNames {
+				return true
+			}
+			// a parameter of a hosted helper: what Import passes for it
+			if p, ok := x.(*ssa.Parameter); ok {
+				if av := c.hostedArg(p, imp); av != x {
+					return derivesShallow(av, fromNames)
+				}
+			}
+			return false
+		}
+		for _, w := range cws {
 			mu, ok := w.Instr.(*ssa.MapUpdate)
 			if !ok {
 				continue
 			}
 			n++
-			okk := derivesShallow(mu.Key, func(x ssa.Value) bool { return loadOfField(x) == fSerNames || fieldOf(x) == fSerNames })
+			okk := derivesShallow(mu.Key, fromNames)
 			c.check(okk, "C17.imp", "Import keys restored ticks by the exported state names", w.Instr.Pos(), "the tick at position i belongs to data.StateNames[i]; keyed by "+render(mu.Key)+" it lands on another state when exporter and importer order their states differently")
 		}
 		if n < 1 {
